@@ -10,7 +10,7 @@ Inductive case :=
   | Enc (k : kind) (real : bytes) (real_roundtrip : bool)
   | Dec (k : kind) (input : bytes) (verdict : N) (reenc : bytes)     (* 0 = Err, 1 = Ok, 2 = panic *)
   | Stream (chunks : list bytes) (sent : list bytes) (complete : bool) (truncated : bool)
-           (got : list bytes) (err : bool) (eof_err : bool) (rest_len : N)
+           (got : list bytes) (err : bool) (eof_err : bool) (rest_len : N) (chunk_indep : bool)
   | CapRaw (kindb : N) (ok : bool) (writable : bool) (back_kind : N)
   | Ticket (roundtrip_ok : bool) (hostile_panicked : bool) (empty_nodes_rejected : bool).
 
@@ -41,7 +41,7 @@ Definition check (c : case) : N :=
                 | Some (b, _) => (verdict =? 1) && bytes_eqb b reenc
                 end in
       bit (negb m1) 1 + bit (verdict =? 2) 2
-  | Stream chunks sent complete truncated got err eof_err rest_len =>
+  | Stream chunks sent complete truncated got err eof_err rest_len chunk_indep =>
       let '(ms, rest, e) := feed_chunks P_MAX_MESSAGE_SIZE [] chunks in
       let m1 := list_eqb bytes_eqb (map enc_cmsg ms) got && Bool.eqb e err && (N.of_nat (length rest) =? rest_len)
                 && Bool.eqb eof_err (negb e && negb (rest_len =? 0)) in
@@ -51,7 +51,8 @@ Definition check (c : case) : N :=
                 else if truncated then is_prefix_list got sent && negb err
                                        && Bool.eqb eof_err (negb (rest_len =? 0))
                 else true in
-      bit (negb m1) 1 + bit (negb m2) 2
+      (* whatever the bytes, the outcome is the same for the stream in one piece and byte by byte *)
+      bit (negb m1) 1 + bit (negb (m2 && chunk_indep)) 2
   | CapRaw kindb ok writable back =>
       let m := cap_from_raw P_CAP_WRITE P_CAP_READ kindb [] in
       let m1 := match m with
